@@ -291,6 +291,7 @@ def check_programs(ctx, n, keyword_names):
             impl.did_close(srv, path); impl.did_close(srv_mem, path)
             if k in (40, 110):
                 ws_check(ctx, srv, conn, coq, model=True)      # model comparison while the literal stays small
+                ws_rename_check(ctx, srv, conn, root)
         ws_check(ctx, srv, conn, coq, model=False)
     finally:
         shutil.rmtree(root, ignore_errors=True)
@@ -300,6 +301,33 @@ def check_programs(ctx, n, keyword_names):
         ctx.report("C04:model-impl-mismatch", "scope objects / documentSymbol differ from C04.Model (recss, doc_symbols) on a generated tree",
                    {"kind": "broken-correspondence", "input": meta[b], "correspondence": "FV.C04.Model.recss / doc_symbols vs FortranFile.parse / serve_document_symbols"},
                    found_input=False)
+
+
+def ws_rename_check(ctx, srv, conn, root):
+    """workspace/symbol after a document was re-parsed with a top-level unit renamed and another one removed: the index holds the
+    units of the current text only"""
+    path = os.path.join(root, "ws_ren.f90")
+    old_text = "module ws_ren_old\n integer :: ws_ren_var\ncontains\n subroutine ws_ren_inner()\n end subroutine ws_ren_inner\nend module ws_ren_old\nsubroutine ws_ren_ext()\nend subroutine ws_ren_ext\n"
+    new_text = old_text.replace("ws_ren_old", "ws_ren_new").split("subroutine ws_ren_ext")[0]
+    with open(path, "w") as f:
+        f.write(old_text)
+    impl.did_open(srv, path)
+
+    def names():
+        r, _ = impl.request(srv, conn, "workspace/symbol", {"query": "ws_ren_"})
+        return sorted((x["name"], x.get("containerName") or "") for x in (r[2] or [])) if r and r[0] == "r" else None
+    before = names()
+    impl.did_change(srv, path, [{"range": {"start": {"line": 0, "character": 0}, "end": {"line": 9, "character": 0}}, "text": new_text}])
+    after = names()
+    want_before = [("ws_ren_ext", ""), ("ws_ren_inner", "ws_ren_old"), ("ws_ren_old", ""), ("ws_ren_var", "ws_ren_old")]
+    want_after = [("ws_ren_inner", "ws_ren_new"), ("ws_ren_new", ""), ("ws_ren_var", "ws_ren_new")]
+    ctx.count(("ws-rename",), True)
+    if before != want_before or after != want_after:
+        ctx.report("C04:workspace-symbol-after-edit", "workspace/symbol does not list exactly the units and members of the current text after a unit was renamed and one removed",
+                   {"kind": "counterexample", "input": {"text": old_text, "changed_to": new_text, "query": "ws_ren_"}, "implementation": {"before": before, "after": after},
+                    "oracle": {"before": want_before, "after": want_after}})
+    impl.did_close(srv, path)
+    os.remove(path)
 
 
 def ws_check(ctx, srv, conn, coq, model):
